@@ -260,7 +260,8 @@ void bn_mod_monty_basic(bn_t c, const bn_t a, const bn_t m, const bn_t u) {
 		tmp = t->dp;
 
 		for (i = 0; i < m->used; i++, tmp++) {
-			r = (dig_t)(*tmp * u0);
+			/* 1U: digits narrower than int must not be multiplied as (signed) int. */
+			r = (dig_t)(1U * *tmp * u0);
 			*tmp = bn_mula_low(tmp, m->dp, r, m->used);
 		}
 		if (bn_addn_low(t->dp, t->dp, tmp, m->used)) {
